@@ -169,7 +169,8 @@ type observation struct {
 }
 
 func buildRoot(s string) map[string]any {
-	return map[string]any{"k": s, "s": s, "l": []any{s, "lit"}, "ls": []any{s, "lit"}, "m": map[string]any{"x": s}, "ms": map[string]any{"x": s}}
+	return map[string]any{"k": s, "s": s, "l": []any{s, "lit"}, "ls": []any{s, "lit"}, "m": map[string]any{"x": s}, "ms": map[string]any{"x": s},
+		"lo": []any{map[string]any{"x": s}}, "mo": map[string]any{"a": map[string]any{"x": s}}, "ps": s}
 }
 
 func decodeInto(conf *confmap.Conf, name string, target any, read func() any) *obsPos {
@@ -292,6 +293,36 @@ func observe(conf *confmap.Conf, kind ykind) []*obsPos {
 				return "<nil sub-struct>"
 			}
 			return t.MS.X
+		}))
+	}
+	{
+		// a string field is a string field wherever its struct sits: in a list of sub-configurations, in a map of them,
+		// or behind a pointer (optional setting)
+		var t struct {
+			LO []struct {
+				X string `mapstructure:"x"`
+			} `mapstructure:"lo"`
+		}
+		out = append(out, decodeInto(conf, "slice-of-struct:string", &t, func() any {
+			if len(t.LO) == 0 {
+				return "<empty list>"
+			}
+			return t.LO[0].X
+		}))
+		var t2 struct {
+			MO map[string]struct {
+				X string `mapstructure:"x"`
+			} `mapstructure:"mo"`
+		}
+		out = append(out, decodeInto(conf, "map-of-struct:string", &t2, func() any { return t2.MO["a"].X }))
+		var t3 struct {
+			PS *string `mapstructure:"ps"`
+		}
+		out = append(out, decodeInto(conf, "ptr:string", &t3, func() any {
+			if t3.PS == nil {
+				return "<nil>"
+			}
+			return *t3.PS
 		}))
 	}
 	{
@@ -443,7 +474,7 @@ func wantAt(tree any, pos string) (want string, wantErr bool, ok bool) {
 		}
 		return av, false, true
 	case "string", "[]string", "map[string]string", "held:string", "held:[]string", "held:map[string]string", "squash:string",
-		"ptr-struct:string", "named:string", "unmarshaler:string", "sub:string":
+		"ptr-struct:string", "named:string", "unmarshaler:string", "sub:string", "slice-of-struct:string", "map-of-struct:string", "ptr:string":
 		if !hasS {
 			return "", false, false
 		}
@@ -473,6 +504,9 @@ func compare(tree any, obs []*obsPos, skipTyped bool) *mismatch {
 		}
 		if p.err != "" {
 			return &mismatch{pos: p.name, kind: "decode-error", want: want, got: "error: " + p.err, implErr: p.err}
+		}
+		if p.name == "ptr:string" && fmt.Sprint(p.got) == "<nil>" && anyView(tree) == nil {
+			continue // an optional (*string) setting given a null value stays unset: a nil pointer is the typed reading of null
 		}
 		if got := confgen.Canon(confgen.Unwrap(p.got)); got != want {
 			return &mismatch{pos: p.name, kind: "value", want: want, got: got}
